@@ -273,7 +273,7 @@ def declare_ctx(rng, rich=True):
     function, descriptors, source)"""
     for _ in range(40):
         params = rand_sig(rng, rich)
-        ctx = rng.choice(["plain", "plain", "plain", "instance", "class", "static"])
+        ctx = rng.choice(["plain", "plain", "plain", "instance", "class", "static", "static-under"])
         name = dyn.fresh("ofn")
         aliases = {}
         plist = sig_src(params)
@@ -301,11 +301,13 @@ def declare_ctx(rng, rich=True):
             src = ("def %s_raw(%s):\n    return dict(locals())\n"
                    "@utype.parse%s\ndef %s(%s):\n    return dict(locals())\n" % (name, raw_plist, deco_opts, name, plist))
         else:
-            first = {"instance": "self, ", "class": "cls, ", "static": ""}[ctx]
-            deco = {"instance": "", "class": "    @classmethod\n", "static": "    @staticmethod\n"}[ctx]
-            src = ("def %s_raw(%s):\n    return dict(locals())\n"
-                   "class %s_K:\n%s    @utype.parse\n    def m(%s%s):\n        d = dict(locals())\n        d.pop('self', None); d.pop('cls', None)\n        return d\n"
-                   "%s = %s_K().m\n" % (name, raw_plist, name, deco, first, plist, name, name))
+            first = {"instance": "self, ", "class": "cls, ", "static": "", "static-under": ""}[ctx]
+            deco = {"instance": "", "class": "    @classmethod\n", "static": "    @staticmethod\n", "static-under": ""}[ctx]
+            # "static-under": utype.parse applied on top of @staticmethod (a bare first parameter is an ordinary parameter there)
+            inner = "    @utype.parse\n    @staticmethod\n" if ctx == "static-under" else "    @utype.parse\n"
+            src = (("def %s_raw(%s):\n    return dict(locals())\n"
+                    "class %s_K:\n%s" + inner + "    def m(%s%s):\n        d = dict(locals())\n        d.pop('self', None); d.pop('cls', None)\n        return d\n"
+                    "%s = %s_K().m\n") % (name, raw_plist, name, deco, first, plist, name, name))
         try:
             dyn.declare(src)
         except Exception:
